@@ -326,6 +326,10 @@ def tolerant(impl, model):
                     if a and b and a.group(1) in ("other", "none", "unknown") and (a.group(1) in ("none", "unknown") or b.group(1) != "ok"):
                         i = i[:a.start(1)] + "~" + i[a.end(1):]
                         m = m[:b.start(1)] + "~" + m[b.end(1):]
+            if "err other" in i and "err " in m:
+                # configuration errors: the kind is read off the message; an unknown wording still is an error
+                i = re.sub(r"\berr \w+", "err ~", i)
+                m = re.sub(r"\berr \w+", "err ~", m)
             if i.startswith("res=err:other[") and m.startswith("res=err:"):
                 i = re.sub(r"^res=\S+", "res=err:~", i)
                 m = re.sub(r"^res=\S+", "res=err:~", m)
